@@ -47,6 +47,8 @@ def inventory():
     if INV["inv"] is None and INV["path"] and os.path.exists(INV["path"]):
         INV["inv"] = json.load(open(INV["path"]))
         INV["idx"] = conc.site_index(INV["inv"])
+        if INV.get("optable") is None and INV["inv"].get("optable"):
+            INV["optable"] = INV["inv"]["optable"]
     return INV["inv"]
 
 
@@ -426,6 +428,9 @@ def static_inventory(ctx):
             advisory_file(ctx, os.path.join(C.COQ, "genproofs", "GenOpReadsProofs.v"), [(ctx.gen_dir, "PqGen")],
                           {"slot_read_by_an_operation_and_written_non_idempotently": ores["offenders"][:10]})
             INV["optable"] = tab
+            d_ = json.load(open(INV["path"]))         # the workers need the read sets too (unread locations are volatile)
+            d_["optable"] = {"rows": [{"op": r_["op"], "reads": r_["reads"]} for r_ in tab["rows"]]}
+            json.dump(d_, open(INV["path"], "w"))
             ctx.extra["op_table"] = {"rows": {r_["op"]: {"functions": r_["functions"], "reads": len(r_["reads"]),
                                                         "writes": sorted(set("%s:%s" % (w_["slot"], w_["pattern"]) for w_ in r_["writes"]))[:30]}
                                               for r_ in tab["rows"]},
@@ -793,6 +798,7 @@ def footprint_premise(ctx, pq, datasets, jobs, results, state):
                 continue
             phase = job["fp_phase"]
             for ri, (op, got, changes, nlines, scr, want, evs, cover, areads) in enumerate(res_list):
+                changes, evs = drop_unread(ctx, changes, evs)
                 all_events.append((phase, op, evs))
                 if areads:
                     state.setdefault("attr_reads", {}).setdefault(ROW_OF.get(op["op"], op["op"]), set()).update(areads)
@@ -859,6 +865,50 @@ def footprint_premise(ctx, pq, datasets, jobs, results, state):
 
 
 VOLATILE_PREFIXES = conc.SCRATCH_PREFIXES
+
+
+def unread_slot(key, attrs=True):
+    """A location that NO operation of the regenerated op table reads (its slot - module-global name or handle attribute - is in no
+    row's read set) is of class Multi in the classification the table induces (Conc/OpTable.cls_tbl): whatever is written there,
+    no result depends on it (a call counter, a debugging attribute).  Such locations are volatile for the monitor: recorded, not
+    constrained.  Only module-level names and attributes of the handle are ever classified this way."""
+    tab = INV.get("optable")
+    if tab is None:
+        return None
+    reads = INV.get("all_reads")
+    if reads is None:
+        reads = INV["all_reads"] = set(x for r_ in tab["rows"] for x in r_["reads"])
+    parts = key.split("/")
+    if key.startswith("/@module/") and len(parts) >= 4 and ":" not in parts[2]:
+        slot = parts[3]
+    elif attrs and len(parts) >= 2 and parts[1] and not parts[1].startswith("@") and parts[1] != "fmd" and parts[1].isidentifier():
+        slot = parts[1]
+    else:
+        return None
+    if slot in reads or (slot + "[*]") in reads or slot in ("#", "@"):
+        return None
+    return slot
+
+
+def drop_unread(ctx, changes, evs, attrs=True):
+    """remove the unread (volatile) locations from the snapshots and events of one trace; -> (changes, evs)"""
+    hit = {}
+    out = []
+    for tag, fp in changes:
+        fp2 = {}
+        for k_, v_ in fp.items():
+            sl = unread_slot(k_, attrs)
+            if sl is None:
+                fp2[k_] = v_
+            else:
+                hit[sl] = hit.get(sl, 0) + 1
+        if not out or fp2 != out[-1][1]:
+            out.append((tag, fp2))
+    if hit:
+        d = ctx.extra.setdefault("unread_locations_written_or_held", {})
+        for sl in hit:
+            d[sl] = d.get(sl, 0) + 1
+    return out, [e_ for e_ in evs if unread_slot(e_[0], attrs) is None]
 
 
 ROW_OF = {"index": "slice", "slice_only": "slice", "slice_stats": "slice", "deepcopy": "copy"}
@@ -1522,7 +1572,8 @@ def part_writers(ctx, pq, rng, quick):
             inventory()
             evs = []
             for ch in res["trace"]:
-                evs += conc.trace_events(ch, INV["idx"] or {})
+                ch2, _ = drop_unread(ctx, ch, [], attrs=False)      # (the root is the shared thrift object: no handle attributes)
+                evs += conc.trace_events(ch2, INV["idx"] or {})
             on_shared = [e for e in evs if not e[0].startswith("/@module/")]
             on_module = [e for e in evs if e[0].startswith("/@module/")]
             ctx.obligation("ownership premise [part writers, round %d]: make_part_file performs no write on the shared schema/metadata" % r,
